@@ -288,6 +288,9 @@ type FuncResult struct {
 	Unsupported string
 	Ctx         *Ctx
 	Contract    *FuncContract
+	Plan        *ReplayPlan
+	EntryEnv    *Env
+	AllTerms    []NamedTerm
 }
 
 func (v *Verifier) wfAssume(c *Ctx, val Val) Term {
@@ -344,6 +347,9 @@ func (v *Verifier) VerifyFunc(fc *FuncContract) (res *FuncResult) {
 	v.emitAxioms(c, fc.Pkg)
 	mem := NewMem()
 	env := &Env{c: c, v: v, vars: map[string]Val{}, mem: mem, pkg: fn.Pkg.Pkg}
+	plan := &ReplayPlan{Fn: fn, PkgPath: fc.Pkg}
+	res.Plan = plan
+	res.EntryEnv = env
 	addInput := func(name string, val Val) {
 		if val.Typ == nil {
 			return
@@ -360,9 +366,8 @@ func (v *Verifier) VerifyFunc(fc *FuncContract) (res *FuncResult) {
 		env.vars[name] = pv
 		c.assume(v.wfAssume(c, pv))
 		addInput(name, pv)
-		for _, l := range leaves(pv) {
-			_ = l
-		}
+		pi := ParamInfo{Name: name, Type: t, Val: pv}
+		defer func() { plan.Params = append(plan.Params, pi) }()
 		if pv.K == KRef {
 			ex.known = append(ex.known, pv.T)
 			if pt, ok := t.Underlying().(*types.Pointer); ok {
@@ -372,6 +377,7 @@ func (v *Verifier) VerifyFunc(fc *FuncContract) (res *FuncResult) {
 						pointee := c.load(mem, pv.T, pt.Elem())
 						c.assume(v.wfAssume(c, pointee))
 						addInput("*"+name, pointee)
+						pi.Pointee = &pointee
 					}()
 				}
 			}
@@ -421,26 +427,39 @@ func (v *Verifier) VerifyFunc(fc *FuncContract) (res *FuncResult) {
 	if len(results) == 1 {
 		post.vars["result"] = results[0]
 	}
-	var outs []NamedTerm
 	for i, rv := range results {
-		sorts := c.leafSorts(rv.Typ)
-		for j, l := range leaves(rv) {
-			outs = append(outs, NamedTerm{Name: fmt.Sprintf("result%d#%d", i, j), T: l, Sort: sorts[j]})
-		}
+		plan.Outs = append(plan.Outs, OutInfo{Name: fmt.Sprintf("result%d", i), GoExpr: fmt.Sprintf("r%d", i), Type: rv.Typ, Val: rv})
 	}
 	// modified cells are outputs too
 	if fc.HasMod {
 		for _, m := range fc.Modifies {
-			if m == "everything" || strings.HasPrefix(m, "typemem(") || strings.HasPrefix(m, "map(") {
+			if m == "everything" || strings.HasPrefix(m, "typemem(") || strings.HasPrefix(m, "map(") || strings.HasPrefix(m, "mapsof(") || strings.HasPrefix(m, "fieldmem(") {
 				continue
 			}
-			for k, cl := range ex.lvalueCells(env, m, fc.Full()) {
-				val := c.load(outMem, cl.addr, cl.t)
-				sorts := c.leafSorts(cl.t)
-				for j, l := range leaves(val) {
-					outs = append(outs, NamedTerm{Name: fmt.Sprintf("mod:%s[%d]#%d", m, k, j), T: l, Sort: sorts[j]})
+			func() {
+				defer func() { recover() }()
+				txt := strings.TrimSuffix(m, ".*")
+				e, err := ParseExpr(txt)
+				if err != nil {
+					return
 				}
-			}
+				var pv Val
+				goexpr := txt
+				if strings.HasSuffix(m, ".*") {
+					pv, err = env.Value(e)
+					if err != nil || pv.K != KRef {
+						return
+					}
+					goexpr = "(*" + txt + ")"
+				} else {
+					pv = env.addrOf(e)
+					if e.Op == "un" {
+						goexpr = "(" + txt + ")"
+					}
+				}
+				et := derefType(pv.Typ)
+				plan.Outs = append(plan.Outs, OutInfo{Name: "mod:" + m, GoExpr: goexpr, Type: et, Val: c.load(outMem, pv.T, et)})
+			}()
 		}
 	}
 	for _, en := range fc.Ensures {
@@ -448,9 +467,25 @@ func (v *Verifier) VerifyFunc(fc *FuncContract) (res *FuncResult) {
 		if err != nil {
 			unsup("ensures: %v", err)
 		}
-		o := ex.addObl("post", en.Label, outReach, t, fn.Pos(), en.Text, false)
-		o.Outputs = outs
+		ex.addObl("post", en.Label, outReach, t, fn.Pos(), en.Text, false)
 	}
+	allTerms := plan.terms(c)
+	res.AllTerms = allTerms
+	var inTerms []NamedTerm
+	for _, nt := range allTerms {
+		if strings.HasPrefix(nt.Name, "in:") {
+			inTerms = append(inTerms, nt)
+		}
+	}
+	defer func() {
+		for _, o := range obls {
+			if o.Kind == "post" {
+				o.Inputs = allTerms
+			} else {
+				o.Inputs = inTerms
+			}
+		}
+	}()
 	if fc.HasMod {
 		ex.frameCheck(env, mem, outMem, outReach)
 	}
@@ -464,6 +499,8 @@ func (ex *Exec) frameCheck(env *Env, in, out *MemState, reach Term) {
 	fc := ex.fc
 	everything := false
 	wholeTypes := map[string]bool{}
+	wholeMaps := map[string]bool{}
+	var regs []string
 	var listed []cell
 	mapRefs := map[string][]Term{}
 	for _, m := range fc.Modifies {
@@ -477,6 +514,16 @@ func (ex *Exec) frameCheck(env *Env, in, out *MemState, reach Term) {
 			}
 			for _, cl := range c.cells("0", t) {
 				wholeTypes[typeKey(cl.t)] = true
+			}
+		case strings.HasPrefix(m, "fieldmem("):
+			regs = append(regs, m)
+		case strings.HasPrefix(m, "mapsof("):
+			t := ex.v.lookupType(env.pkg, strings.TrimSuffix(strings.TrimPrefix(m, "mapsof("), ")"))
+			if t == nil {
+				unsup("unknown type in %s", m)
+			}
+			for _, mt := range mapsOf(t, map[string]bool{}) {
+				wholeMaps[typeKey(mt)] = true
 			}
 		case strings.HasPrefix(m, "map("):
 			e, err := ParseExpr(strings.TrimSuffix(strings.TrimPrefix(m, "map("), ")"))
@@ -495,6 +542,7 @@ func (ex *Exec) frameCheck(env *Env, in, out *MemState, reach Term) {
 	if everything {
 		return
 	}
+	regions := ex.regionsOf(env.pkg, regs)
 	if out.epoch != in.epoch {
 		ex.addObl("frame", "epoch", reach, "false", ex.fn.Pos(), "the function (or a callee without contract) may modify everything, but its contract has a finite modifies clause", false)
 		return
@@ -514,6 +562,9 @@ func (ex *Exec) frameCheck(env *Env, in, out *MemState, reach Term) {
 		a := c.declConst(c.fresh("frame_a"), SRef)
 		var allowed []Term
 		if mt, ok := t.(*types.Map); ok {
+			if wholeMaps[typeKey(mt)] {
+				continue
+			}
 			for _, r := range mapRefs[typeKey(mt)] {
 				allowed = append(allowed, eq(a, r))
 			}
@@ -525,6 +576,9 @@ func (ex *Exec) frameCheck(env *Env, in, out *MemState, reach Term) {
 				if typeKey(cl.t) == typeKey(t) {
 					allowed = append(allowed, eq(a, cl.addr))
 				}
+			}
+			for _, id := range regions[k] {
+				allowed = append(allowed, eq(app("ftag", a), fmt.Sprint(id)))
 			}
 		}
 		// cells of objects allocated by this function are invisible to the caller
